@@ -87,7 +87,7 @@ class Seq:
         for _ in range(n):
             if getattr(self, 'difficulty_runs', False) and r.chance(0.12): self.diffrun(); continue
             k = r.wpick([('label', 4), ('marker', 4), ('block', 1 if depth < 3 else 0), ('if', 1 if (self.blocks in ('full', 'plain') and depth < 3) else 0), ('loop', 0.6 if (self.blocks and depth < 3) else 0),
-                         ('times', 0.5 if (self.blocks == 'full' and depth < 3) else 0)])
+                         ('times', 0.5 if (self.blocks == 'full' and depth < 3) else 0), ('while', 0.5 if (self.blocks in ('full', 'plain') and depth < 3) else 0)])
             if k == 'label': self.label()
             elif k == 'marker': self.marker()
             elif k == 'block':
@@ -100,9 +100,23 @@ class Seq:
             elif k == 'loop':
                 self.lines.append('loop {'); self.seq(depth + 1, r.randint(1, 3)); self.lines.append('break;'); self.lines.append('}'); self.shape.append('loop')
             elif k == 'times':
-                self.lines.append('times(%d) {' % r.randint(1, 3)); self.seq(depth + 1, r.randint(1, 3)); self.lines.append('}'); self.shape.append('times')
+                self.lines.append('times(%d) {' % r.randint(0, 3)); self.seq(depth + 1, r.randint(1, 3)); self.lines.append('}'); self.shape.append('times')
+            elif k == 'while':
+                self.lines.append('%s (%s) {' % (r.pick(['while', 'unless', 'if']), r.pick(['0', '1 - 1', '0'])) if r.chance(0.7) else 'while (%s) {' % self.cond())
+                self.seq(depth + 1, r.randint(1, 3)); self.lines.append('}'); self.shape.append('while')
 
-    def cond(self): return 'REG[10000] == %d' % self.r.randint(0, 3) if self.blocks == 'full' else '1'
+    def cond(self):
+        # run-time conditions, and compile-time constant ones (false as well as true: a branch that can never run still carries its
+        # time labels, and the statements after it must see them)
+        r = self.r
+        def const_cond():
+            k = r.pick(['0', '1', '2 - 2', '3 > 1', 'K'])
+            if k == 'K':
+                k = 'KC%d' % len(self.consts); self.consts[k] = r.pick([0, 0, 1, 5])
+            self.kinds.add('const-cond')
+            return k
+        if self.blocks == 'full': return const_cond() if r.chance(0.3) else 'REG[10000] == %d' % r.randint(0, 3)
+        return const_cond() if r.chance(0.6) else '1'
 
 def file_text(tool, game, body, consts):
     cs = ''.join('const int %s = %d;\n' % kv for kv in consts.items())
